@@ -281,10 +281,14 @@ def gen_checked_cbmc(fn, ret, params, ensures, requires):
     return '\n'.join(src)
 
 
-def native_flags():
+def native_flags(static_inc=None):
     fl = ['-DVP_NATIVE', '-g', '-O0', '-fno-pie', '-fsanitize=address,undefined', '-fno-sanitize-recover=undefined', '-fno-sanitize=vptr', '-w',
-          '-I' + os.path.join(vp.REPO, '_build') if os.path.exists(os.path.join(vp.REPO, '_build', 'config.h')) else '-I.',
           '-I' + os.path.join(VERIF, 'support'), '-I' + os.path.join(VERIF, 'env'), '-I' + os.path.join(VERIF, 'contracts')]
+    if static_inc:
+        # VP_NATIVE_STATIC twin: the mirrored headers (N2, N6, N11, N17 - the cbmc view) and static binding
+        fl += ['-DVP_NATIVE_STATIC', '-I' + static_inc]
+        return fl
+    fl.append('-I' + os.path.join(vp.REPO, '_build') if os.path.exists(os.path.join(vp.REPO, '_build', 'config.h')) else '-I.')
     for d in vp.native_include_dirs():
         fl.append('-I' + d)
     return fl
@@ -293,8 +297,15 @@ def native_flags():
 def build_and_run_twin(unit, chk, inputs, workdir, native_slices=None, obligation=None):
     """returns (status, output) status in {'confirmed','confirmed-other-clause','not-confirmed','build-failed','crash','twin-incomplete','run-failed'}"""
     os.makedirs(workdir, exist_ok=True)
-    fl = native_flags()
-    if not os.path.exists(os.path.join(vp.REPO, '_build', 'config.h')):
+    static = bool(unit.spec.get('native_static'))
+    cxx_static = []
+    if static:
+        vp.mirror(workdir)
+        fl = native_flags(os.path.join(workdir, 'inc'))
+        cxx_static = ['-include', os.path.join(VERIF, 'support', 'native_static_prelude.h')]
+    else:
+        fl = native_flags()
+    if not static and not os.path.exists(os.path.join(vp.REPO, '_build', 'config.h')):
         open(os.path.join(workdir, 'config.h'), 'w').write(vp.CONFIG_FALLBACK)
         fl.append('-I' + workdir)
     fn = chk.get('enforce')
@@ -345,9 +356,10 @@ def build_and_run_twin(unit, chk, inputs, workdir, native_slices=None, obligatio
             comb = os.path.join(workdir, 'native_append_%d.cpp' % k)
             open(comb, 'w').write(''.join('#include "%s"\n' % unit.file(ap) for ap in sp['append']))
             cxx.append(comb)
+    pre_inc = sum([['-include', x] for x in unit.spec.get('cxx_include', [])], [])
     for i, f in enumerate(cxx):
         o = os.path.join(workdir, 'n%d.o' % i)
-        rc, out, err, _ = vp.sh(['g++', '-std=gnu++14', '-Dprivate=public', '-Dprotected=public', '-I' + unit.dir] + fl + defs + ['-c', f, '-o', o])
+        rc, out, err, _ = vp.sh(['g++', '-std=gnu++14'] + ([] if static else ['-Dprivate=public', '-Dprotected=public']) + ['-I' + unit.dir] + cxx_static + fl + defs + (pre_inc if f in native_slices else []) + ['-c', f, '-o', o])
         if rc != 0:
             return 'build-failed', '%s: %s' % (f, err[-3000:])
         objs.append(o)
@@ -423,7 +435,9 @@ def make_replay(prop, unit, chk, res, violation, rep, scratch):
         elif status in ('crash',) and not is_post:
             confirmed = True
         elif status == 'crash' and is_post:
-            confirmed = True  # the real code crashed on the verifier's input
+            # a crash of the twin while replaying a POSTCONDITION counterexample: only units whose twin runs on real
+            # objects (no raw-storage environment objects) may count it; otherwise it may be an artefact of the twin
+            confirmed = bool(unit.spec.get('twin_crash_confirms_postcondition', False))
         note = 'native replay: ' + status
     else:
         doc['native_replay'] = {'status': 'not-attempted', 'output': 'this unit has no native twin (replay: false) or the trace carried no ghost inputs'}
